@@ -27,6 +27,7 @@ def dispatch (op : String) (j : Json) : Except String Json :=
   | "check" => Drv.gradeCheck j
   | "call" => Drv.gradeCall j
   | "parse_hist" => Drv.parseHist j
+  | "parse_hist_heap" => Drv.parseHistHeap j
   | "eval" => Drv.eval j
   | "apply_attempt" => Drv.applyAtt j
   | "depend" => Drv.depend j
